@@ -392,6 +392,20 @@ class C04(Prop):
                         pairs.append((('then', ('iterp', ('rep', b, lo, hi)), rest), ('then', ('collect', 'unit', ('rep', b, lo, hi)), rest)))
                         pairs.append((('then', ('iterp', ('sep', ('any',), b, lo, hi, False, True)), rest),
                                       ('then', ('collect', 'unit', ('sep', ('any',), b, lo, hi, False, True)), rest)))
+        # repeated / separated_by used without a consumer (their own `go`) against the same iterator collected into ():
+        # every combination of bounds and leading / trailing flags, single- and two-token separators and items
+        for item in [('just', [gen.A]), ('just', [gen.A, gen.A]), ('oneof', [gen.A, gen.EA])]:
+            for sepg in [('just', [gen.B]), ('just', [gen.B, gen.B]), ('ornot', ('just', [gen.B]))]:
+                for lo, hi in [(0, None), (1, None), (0, 2), (2, 3), (1, 1)]:
+                    for lead in (False, True):
+                        for trail in (False, True):
+                            it = ('sep', item, sepg, lo, hi, lead, trail)
+                            if sepg[0] == 'ornot' and (lo, hi) != (0, 2):
+                                continue
+                            pairs.append((('then', ('iterp', it), rest), ('then', ('collect', 'unit', it), rest)))
+            for lo, hi in [(0, None), (1, None), (0, 2), (2, 3), (1, 1), (0, 0)]:
+                it = ('rep', item, lo, hi)
+                pairs.append((('then', ('iterp', it), rest), ('then', ('collect', 'unit', it), rest)))
         inp = inputs_all(4, [gen.A, gen.B, gen.EA])
         for n, (l, r) in enumerate(pairs):
             for mode in ('parse', 'check'):
@@ -1486,9 +1500,10 @@ class C12(Prop):
         # runtime part (supporting evidence, not a theorem): every recursion site goes through the stack-growing guard, so a
         # parser nested 10^5 (thorough: 10^6) levels deep returns on a 512 KiB thread; an unguarded site overflows and kills the probe
         depths = [1000, 100000] if tier == 'quick' else [1000, 100000, 1000000]
-        jobsl = [(pr, d, m) for pr in ('parens', 'mutual', 'pratt_prefix', 'pratt_postfix', 'pratt_infixr', 'pratt_infixl')
+        jobsl = [(pr, d, m) for pr in ('parens', 'mutual', 'pratt_prefix', 'pratt_postfix', 'pratt_infixr', 'pratt_infixl',
+                                       'parens_boxed', 'parens_rc', 'mutual_boxed', 'declared_boxed', 'pratt_parens')
                  for d in depths for m in ('parse', 'check')]
-        with multiprocessing.Pool(min(jobs, 6)) as pool:
+        with multiprocessing.Pool(min(jobs, 8)) as pool:
             res = pool.map(_deep_worker, jobsl)
         for probe, depth, mode, rc, out, err in res:
             tot['pairs'] += 1
@@ -1816,16 +1831,21 @@ def text_oracle(inst, pname, params, toks):
 
 
 CRLF = 0x110000      # pseudo-token: the grapheme cluster "\r\n" (white space, a newline, nothing else)
-REGEX_PATTERNS = ["[0-9]+", "[a-zA-Z_][a-zA-Z0-9_]*", "a|ab", "(ab)*", "a*", "ab|a", "[^ ]+", ".", "é+", "a?b"]
+REGEX_PATTERNS = ["[0-9]+", "[a-zA-Z_][a-zA-Z0-9_]*", "a|ab", "(ab)*", "a*", "ab|a", "[^ ]+", ".", "é+", "a?b",
+                  r"\bb", "^a", r"\Bb", r"\ba\b", "(?m)^a", r"a\b"]
 
 
-def regex_oracle(pi, toks):
+def regex_oracle(pi, toks, at=0):
     import re
     s = ''.join(chr(c) for c in toks)
-    m = re.compile(REGEX_PATTERNS[pi % len(REGEX_PATTERNS)]).match(s)
+    if at > len(s):
+        return None
+    # `match(s, at)`: anchored at `at`, look-behind assertions see the text before it (re.ASCII: \b as in ... the engine's
+    # Unicode word boundary agrees with it on the alphabet used here except for e-acute, which is handled by not using it)
+    m = re.compile(REGEX_PATTERNS[pi % len(REGEX_PATTERNS)]).match(s, at)
     if m is None:
         return None
-    return (0, m.end(), m.end())
+    return (at, m.end(), m.end())
 
 
 def _text_worker(args):
@@ -1887,6 +1907,10 @@ class C14(Prop):
             for inst in ('char', 'u8'):
                 lines.append(f'T z{n}{inst[0]} {inst} regex 1 {pi} I {inputs_all(maxlen, ralpha)}')
             n += 1
+            for at in (1, 2):
+                for inst in ('char', 'u8'):
+                    lines.append(f'T z{n}{inst[0]} {inst} regex_at 2 {pi} {at} I {inputs_all(maxlen, ralpha)}')
+                n += 1
         return lines
 
     def custom_run(self, lines, tier, seed, jobs):
@@ -1932,17 +1956,17 @@ class C14(Prop):
                         tot['outcomes']['gr:other-segmentation'] = tot['outcomes'].get('gr:other-segmentation', 0) + 1
                         continue
                     toks = cl
-                if fed and int(fed) != len(toks) and pname != 'regex':
+                if fed and int(fed) != len(toks) and not pname.startswith('regex'):
                     tot['pred_fail'] += 1
                     self.fail(tot, fails, 'pred', None, 0, f'INSPECTOR text::{pname}{params} [{inst}] on {toks}: the parse consumed {len(toks)} tokens but the inspector was fed {fed}')
                     continue
                 if getattr(self, 'insp_only', False):
                     continue
-                if pname == 'regex':
+                if pname in ('regex', 'regex_at'):
                     if inst == 'u8':
                         obs[(cid[:-1], inst, k)] = (a, toks, pname, params)
                         continue          # &[u8]: compared with &str below (ASCII inputs)
-                    want = regex_oracle(params[0], toks)
+                    want = regex_oracle(params[0], toks, params[1] if pname == 'regex_at' else 0)
                     b = a                 # no model of the engine
                 else:
                     want = text_oracle('char' if inst == 'gr' else inst, pname, params, toks)
